@@ -77,6 +77,11 @@ def gen_cases(rng, tier, keys, triples):
         nraw = rng.randint(0, 2)
         add("q", N, l1, l2, nraw, rng.loguniform(0.1, 20), rng.loguniform(0.05, 20), rng.loguniform(0.05, 20), rng.uniform(0.2, 4), rng.uniform(0.2, 4))
         add("r", N, l1, l2, nraw, rng.loguniform(5e-2, 2e3), rng.loguniform(1e-2, 1e4), rng.loguniform(1e-2, 1e4), rng.loguniform(1e-6, 30), rng.loguniform(1e-6, 30))
+    # far and diffuse, high power of r: the quadrature route where r^k keeps the integrand alive far beyond the Gaussian's centre
+    hi = [t for t in tl if t[0] >= 6] or tl
+    for q in range(40 if tier == "quick" else 400):
+        (N, l1, l2) = hi[q % len(hi)]
+        add("f", N, l1, l2, rng.randint(0, 2), rng.loguniform(0.03, 0.1), rng.loguniform(0.02, 0.1), rng.loguniform(0.02, 0.1), rng.uniform(12, 30), rng.uniform(12, 30))
     return out
 
 
@@ -84,7 +89,7 @@ def run(tier, replay=None):
     res = Result(PID, tier, LEVEL)
     res.cov["rule"] = ("proof obligations: Properties_C12.v + per-run theorem table_ok over the case table T-rad regenerates from radial_gen.cpp "
                        "(Laurent normal form of every coefficient; base cases; recurrence identities R_j / R_i between table entries). Correspondence: "
-                       "every closed-form key x power n in {0,1,2} x {generic, both sides of a*b=0.002, x=y, small aA, full ranges} and triples that "
+                       "every closed-form key x power n in {0,1,2} x {generic, both sides of a*b=0.002, x=y, small aA, full ranges, far+diffuse with high powers of r} and triples that "
                        "generated classes request without closed form, through RadialIntegral::type2(triples,...) with single primitives, against a "
                        "self-validating composite Gauss-Legendre evaluation of the DEFINITION (1e-6 rel + 1e-9 abs); deviations are re-evaluated with the "
                        "tail cut disabled / the closed form disabled (hooks) to attribute them. distinct = distinct case lines")
